@@ -835,6 +835,31 @@ fn binary_slice(ctx: &mut Ctx, global: &mut u64) {
             }
         }
     }
+    if ctx.shard == 1 % ctx.nshards {
+        // a malformed expression whose earlier words name find's own standard error (or output) as an
+        // action's file: the rejection still reaches standard error
+        for head in [vec!["-fprint", "/dev/stderr"], vec!["-fprintf", "/dev/stderr", "%p"], vec!["-fls", "/dev/stderr"], vec!["-fprint0", "/dev/fd/2"], vec!["-fprint", "/dev/stdout"], vec!["-fprint", "/dev/null"]] {
+            for tail in [vec!["-bogus"], vec!["("], vec!["-name"], vec!["-o"], vec!["-size", "x"]] {
+                let mut args: Vec<&str> = vec!["r"];
+                args.extend(head.iter().copied());
+                args.extend(tail.iter().copied());
+                let os: Vec<&OsStr> = args.iter().map(OsStr::new).collect();
+                let (code, sig, hung, err) = run_bin_raw(&os, &sbx);
+                ctx.rep.evaluations += 1;
+                ctx.rep.nontrivial += 1;
+                ctx.rep.count("own_stream_as_action_file_cases", 1);
+                if hung || sig.is_some() || matches!(code, Some(101) | Some(134)) {
+                    ctx.rep.violation("C11 find binary died", format!("find {:?}: code {:?} signal {:?}", args, code, sig), json!({"prop":"C11","argv":args,"binary":true}));
+                } else if code == Some(0) || err.is_empty() {
+                    ctx.rep.violation(
+                        "C11 malformed expression after an action whose file is find's own standard error: rejected without a diagnostic (or accepted)",
+                        format!("find {:?} 2>pipe: exit status {:?}, {} bytes on standard error", args, code, err.len()),
+                        json!({"prop":"C11","argv":args,"binary":true,"must_reject":true}),
+                    );
+                }
+            }
+        }
+    }
     if ctx.shard == 0 {
         // argv containing a byte that is not UTF-8
         for raw in [&b"r/\xff"[..], &b"\xff"[..], &b"-name\xff"[..]] {
